@@ -61,6 +61,18 @@ func families() []Scenario {
 		add("close-waits-for-forwarder", sub(0, "stalled"), Step{Op: "park", H: 0}, bgo(1, 0, 2), settle(3), quiesce,
 			closeS(1), Step{Op: "waitret", N: 25}, Step{Op: "rblock", H: 0, N: 60}, Step{Op: "unpark", H: 0}, settle(3), quiesce)
 	}
+	// … and EVERY Close call must wait: 2–4 Close calls overlap (all at once, or the later ones
+	// arrive while the first is pending) while the forwarder is held with a value in hand; only one
+	// of them wins the CAS, none may return before the forwarder is done.  "Nothing is delivered after
+	// Close returns" is judged against the earliest return (Monitors: firstCret).
+	for i := 0; i < 6; i++ {
+		add("closes-overlap-forwarder-holding", sub(0, "stalled"), Step{Op: "park", H: 0}, bgo(1, 0, 1+i%2), settle(3), quiesce,
+			closeS(2+i%3), Step{Op: "waitret", N: 25}, Step{Op: "rblock", H: 0, N: 60}, Step{Op: "unpark", H: 0}, settle(3), quiesce)
+	}
+	for i := 0; i < 4; i++ {
+		add("closes-overlap-forwarder-holding-staggered", sub(0, "stalled"), sub(1, "prompt"), Step{Op: "park", H: 0}, bgo(1, 0, 2), settle(3), quiesce,
+			closeS(1), Step{Op: "waitret", N: 4}, closeS(1+i%3), Step{Op: "waitret", N: 20}, Step{Op: "rblock", H: 0, N: 60}, Step{Op: "unpark", H: 0}, settle(3), quiesce)
+	}
 	// Subscribe with a context that is already cancelled
 	pre := func(h int, kinds ...string) Step { st := subN(h, kinds...); st.Pre = true; return st }
 	add("precancelled", pre(0, "prompt"), sub(1, "prompt"), bgo(1, 0, 6), quiesce, drain, closeS(1), quiesce)
